@@ -15,6 +15,7 @@ import (
 	"sort"
 	"strconv"
 	"strings"
+	"sync/atomic"
 	"syscall"
 	"time"
 
@@ -233,6 +234,14 @@ func (w *wire) Read(p []byte) (int, error) {
 			w.r.fired("net.reset-mid-stream")
 			return 0, &netErr{syscall.ECONNRESET}
 		}
+		if w.fault == "stall" {
+			// the rest of the body never comes: whoever reads on waits until its context ends (or for ever)
+			w.r.fired("net.body-stall")
+			if w.r.Sim.Sleep(-1, w.done, "up:stall") {
+				return 0, fmt.Errorf("sim: reading body: %w", ctxErr(w.ctx))
+			}
+			return 0, io.ErrUnexpectedEOF
+		}
 		if w.fault == "eof" {
 			w.r.fired("net.premature-eof")
 			if w.eofErr != nil {
@@ -312,6 +321,11 @@ func (o *originRT) RoundTrip(req *http.Request) (*http.Response, error) {
 				case "status":
 					cp.Status, cp.Fault = uf.Status, ""
 					cp.No304 = true
+				case "stall5xx":
+					// an error reply whose body never ends
+					cp.Status, cp.Fault, cp.FaultAt, cp.No304 = uf.Status, "stall", uf.At, true
+					cp.CC, cp.ExpMode, cp.CCStyle, cp.Framing = "no-store", "", "", ""
+					cp.BodyLen = max(cp.BodyLen, 40)
 				default:
 					cp.Fault, cp.FaultAt = uf.Fault, uf.At
 				}
@@ -411,6 +425,12 @@ func (r *Run) compose(g *kit.Gor, call *UpCall, req *http.Request, res, planIdx 
 	r.mu.Lock()
 	r.sidNext++
 	sid := r.sidNext
+	if plan.Fault == "stall" {
+		if r.stallSID == nil {
+			r.stallSID = map[int]bool{}
+		}
+		r.stallSID[sid] = true
+	}
 	varKey := r.varKeyOf(res, req.Header)
 	etag := ""
 	if plan.ETag != "" {
@@ -691,10 +711,32 @@ func (r *Run) compose(g *kit.Gor, call *UpCall, req *http.Request, res, planIdx 
 		}
 	}
 	or.Header = resp.Header.Clone()
+	if resp.Body != nil && resp.Body != http.NoBody {
+		resp.Body = &connBody{ReadCloser: resp.Body}
+	}
 	r.mu.Lock()
 	r.OResps = append(r.OResps, or)
 	r.mu.Unlock()
 	return resp, or, nil
+}
+
+// connBody gives the response body the Close of net/http's transport: closing an unread body gives the
+// connection up and returns at once (the body http.ReadResponse builds would read on to the end of the message).
+type connBody struct {
+	io.ReadCloser
+	closed atomic.Bool
+}
+
+func (b *connBody) Read(p []byte) (int, error) {
+	if b.closed.Load() {
+		return 0, errors.New("http: read on closed response body")
+	}
+	return b.ReadCloser.Read(p)
+}
+
+func (b *connBody) Close() error {
+	b.closed.Store(true)
+	return nil
 }
 
 func makeBodyLen(plan *RespPlan, method string, status, sid int) []byte {
@@ -705,7 +747,7 @@ func makeBodyLen(plan *RespPlan, method string, status, sid int) []byte {
 }
 
 func bodyFault(p *RespPlan) string {
-	if p.Fault == "reset" || p.Fault == "eof" {
+	if p.Fault == "reset" || p.Fault == "eof" || p.Fault == "stall" {
 		return p.Fault
 	}
 	return ""
